@@ -8,7 +8,7 @@ def clean(t, n):
     return t[:n]
 for d in sorted(glob.glob(os.path.join(ROOT, 'seeded', '*'))):
     m = json.load(open(os.path.join(d, 'meta.json')))
-    rows.append('| %s | %s | %s | %s | %s |' % (os.path.basename(d), m['property'], ', '.join(m.get('caught_by', [])), clean(m.get('summary'), 220), clean(m.get('needs'), 180)))
+    rows.append('| %s | %s | %s | %s | %s |' % (os.path.basename(d), m['property'], ', '.join(m.get('caught_by', [])), clean(m.get('summary') or m.get('site'), 220), clean(m.get('needs'), 180)))
 p = os.path.join(ROOT, 'DESIGN.md')
 s = open(p).read()
 a = s.index('| seeded change | property | caught by |')
